@@ -82,6 +82,156 @@ theorem C18_macro_eq_builder (ts : List Tmpl) (h : wfTs [[]] ts = true) :
     normalize (parse (macroHtml ts)) = normalize (parse (toHtml (builderKids ts))) := by
   rw [C18_macro_denotes ts h, C18_builder_denotes ts h]
 
+/-! ## the streaming entry points -/
+
+mutual
+theorem expHtmlAsync_eq : (e : Exp) → ∀ (ooo esc : Bool) (pos : Pos), expHtmlAsync ooo esc pos e = expHtml esc pos e
+  | .text s, _, _, _ => by simp [expHtmlAsync, expHtml]
+  | .inert h, _, _, _ => by simp [expHtmlAsync, expHtml]
+  | .elem tag attrs kids, ooo, _, _ => by
+    simp [expHtmlAsync, expHtml, expKidsHtmlAsync_eq kids ooo]
+theorem expKidsHtmlAsync_eq : (es : List Exp) → ∀ (ooo esc : Bool) (pos : Pos),
+    expKidsHtmlAsync ooo esc pos es = expKidsHtml esc pos es
+  | [], _, _, _ => by simp [expKidsHtmlAsync, expKidsHtml]
+  | e :: es, ooo, esc, pos => by
+    simp [expKidsHtmlAsync, expKidsHtml, expHtmlAsync_eq e ooo, expKidsHtmlAsync_eq es ooo]
+end
+
+/-- **async emitter = sync emitter**: for every template (no hypothesis) `to_html_stream_in_order()` and
+`to_html_stream_out_of_order()`, collected, are byte for byte `to_html()` -/
+theorem C18_stream_eq_sync (ooo : Bool) (ts : List Tmpl) : macroHtmlStream ooo ts = macroHtml ts :=
+  expKidsHtmlAsync_eq _ ooo true .firstChild
+
+/-- so the streamed document denotes the template as well -/
+theorem C18_stream_denotes (ooo : Bool) (ts : List Tmpl) (h : wfTs [[]] ts = true) :
+    normalize (parse (macroHtmlStream ooo ts)) = some (denote ts) := by
+  rw [C18_stream_eq_sync, C18_macro_denotes ts h]
+
+/-! ## below a parent that does not escape its own text (`<noscript>`)
+
+The escape flag is NOT inherited: an element below a non-escaping parent escapes its own strings exactly as
+anywhere else, on the static path (decided per element name) and on the builder path (`E::ESCAPE_CHILDREN` of the
+element itself).  Hence the content of such a parent, read as markup (a user agent without scripting), is the
+document its children denote — on both paths. -/
+
+/-- children that are elements (or comments): no string is a direct child of the raw-text parent -/
+def allElemsT (ks : List Tmpl) : Bool :=
+  ks.all (fun t => match t with | .elem _ _ _ => true | .comment _ => true | _ => false)
+
+theorem kidsHtml_noText (ns : List Node) (h : ns.all (fun n => !isTextNode n) = true) (e : Bool) (pos : Pos) :
+    kidsHtml e pos ns = kidsHtml true pos ns := by
+  induction ns generalizing pos with
+  | nil => simp [kidsHtml]
+  | cons n r ih =>
+    simp only [List.all_cons, Bool.and_eq_true] at h
+    cases n with
+    | text s => simp [isTextNode] at h
+    | elem tag attrs kids => simp [kidsHtml, nodeHtml, ih h.2]
+
+theorem expKidsHtml_noText (es : List Exp) (h : es.all (fun e => match e with | .text _ => false | _ => true) = true)
+    (e : Bool) (pos : Pos) : expKidsHtml e pos es = expKidsHtml true pos es := by
+  induction es generalizing pos with
+  | nil => simp [expKidsHtml]
+  | cons x r ih =>
+    simp only [List.all_cons, Bool.and_eq_true] at h
+    cases x with
+    | text s => simp at h
+    | inert hh => simp [expKidsHtml, expHtml, ih h.2]
+    | elem tag attrs kids => simp [expKidsHtml, expHtml, ih h.2]
+
+theorem inertKidsHtml_elems : (ks : List Tmpl) → allElemsT ks = true → ∀ e, inertKidsHtml e ks = inertKidsHtml true ks
+  | [], _, _ => by simp [inertKidsHtml]
+  | t :: ts, h, e => by
+    simp only [allElemsT, List.all_cons, Bool.and_eq_true] at h
+    have ih := inertKidsHtml_elems ts (by simpa [allElemsT] using h.2) e
+    cases t with
+    | elem tag attrs kids => simp [inertKidsHtml, inertNodeHtml, ih]
+    | comment c => simp [inertKidsHtml, inertNodeHtml, ih]
+    | text s => simp at h
+    | block s => simp at h
+    | frag k => simp at h
+    | comp k => simp at h
+    | doctype => simp at h
+
+theorem builderKids_noText : (ks : List Tmpl) → allElemsT ks = true →
+    (builderKids ks).all (fun n => !isTextNode n) = true
+  | [], _ => by simp [builderKids]
+  | t :: ts, h => by
+    simp only [allElemsT, List.all_cons, Bool.and_eq_true] at h
+    have ih := builderKids_noText ts (by simpa [allElemsT] using h.2)
+    cases t with
+    | elem tag attrs kids =>
+      simp only [builderKids, builderView, List.cons_append, List.nil_append, List.all_cons, isTextNode, Bool.not_false,
+        Bool.true_and]
+      exact ih
+    | comment c => simpa [builderKids, builderView] using ih
+    | text s => simp at h
+    | block s => simp at h
+    | frag k => simp at h
+    | comp k => simp at h
+    | doctype => simp at h
+
+theorem expandKids_noText (top : Bool) : (ks : List Tmpl) → allElemsT ks = true →
+    (expandKids top ks).all (fun e => match e with | .text _ => false | _ => true) = true
+  | [], _ => by simp [expandKids]
+  | t :: ts, h => by
+    simp only [allElemsT, List.all_cons, Bool.and_eq_true] at h
+    have ih := expandKids_noText top ts (by simpa [allElemsT] using h.2)
+    cases t with
+    | elem tag attrs kids =>
+      simp only [expandKids, expand]
+      split <;> simp [ih]
+    | comment c => simpa [expandKids, expand] using ih
+    | text s => simp at h
+    | block s => simp at h
+    | frag k => simp at h
+    | comp k => simp at h
+    | doctype => simp at h
+
+/-- the real expansion of children of an element (`top = false`: they may be printed at macro time) denotes them -/
+theorem macro_denotes_top (top : Bool) (ts : List Tmpl) (h : wfTs [[]] ts = true) :
+    normalize (parse (expKidsHtml true .firstChild (expandKids top ts))) = some (denote ts) := by
+  have e : expKidsHtml true .firstChild (expandKids top ts) = toHtml (viewKids true top ts) := by
+    unfold toHtml
+    exact (rel_viewKids ts top [[]] h).html .firstChild
+  rw [e, structure_preserved _ (wf_viewKids ts true top [[]] h)]
+  have := struct_viewKids ts true top [[]] h .firstChild []
+  simp only [List.append_nil, normList] at this
+  simp [normalize, structureOf, this, denote]
+
+/-- **builder path below a raw-text parent**: what tachys writes for the children of a non-escaping element
+(`escape = E::ESCAPE_CHILDREN = false` handed down) is what it writes for them anywhere, and denotes them -/
+theorem C18_raw_parent_builder (tag : Str) (ks : List Tmpl) (hel : allElemsT ks = true) (h : wfTs [[]] ks = true) :
+    kidsHtml (escapeChildren tag) .firstChild (builderKids ks) = toHtml (builderKids ks) ∧
+    normalize (parse (kidsHtml (escapeChildren tag) .firstChild (builderKids ks))) = some (denote ks) := by
+  have e := kidsHtml_noText _ (builderKids_noText ks hel) (escapeChildren tag) .firstChild
+  refine ⟨e, ?_⟩
+  rw [e]
+  exact C18_builder_denotes ks h
+
+/-- **static path below a raw-text parent**: the compile-time printer decides escaping per element name, so the
+children of `<noscript>` are printed as anywhere else and denote the same document -/
+theorem C18_raw_parent_static (tag : Str) (ks : List Tmpl) (hel : allElemsT ks = true) (h : wfTs [[]] ks = true)
+    (hi : inertKids ks = true) :
+    inertKidsHtml (macroEscapes tag) ks = inertKidsHtml true ks ∧
+    normalize (parse (inertKidsHtml (macroEscapes tag) ks)) = some (denote ks) := by
+  have e := inertKidsHtml_elems ks hel (macroEscapes tag)
+  refine ⟨e, ?_⟩
+  rw [e, inert_html ks [[]] h hi, show kidsHtml true .firstChild (inertKidsView ks) = toHtml (inertKidsView ks) from rfl,
+    structure_preserved _ (inert_wf ks [[]] h hi)]
+  have := inert_struct ks [[]] h hi []
+  simp only [List.append_nil, normList] at this
+  simp [normalize, structureOf, this, denote]
+
+/-- **the real expansion below a raw-text parent**, sync and streamed; in particular static path = builder path
+there (`C18_raw_parent_static`, `C18_raw_parent_builder` give the same document) -/
+theorem C18_raw_parent_macro (tag : Str) (ooo : Bool) (ks : List Tmpl) (hel : allElemsT ks = true) (h : wfTs [[]] ks = true) :
+    normalize (parse (expKidsHtml (escapeChildren tag) .firstChild (expandKids false ks))) = some (denote ks) ∧
+    normalize (parse (expKidsHtmlAsync ooo (escapeChildren tag) .firstChild (expandKids false ks))) = some (denote ks) := by
+  have e := expKidsHtml_noText _ (expandKids_noText false ks hel) (escapeChildren tag) .firstChild
+  rw [expKidsHtmlAsync_eq, e]
+  exact ⟨macro_denotes_top false ks h, macro_denotes_top false ks h⟩
+
 /-! ## adding a dynamic part leaves the static parts alone -/
 
 /-- the denotation of a context around a hole, as a function of what the hole contributes -/
@@ -531,6 +681,19 @@ example : wfT [[]] (.elem sP [.plain false ['t','i','t','l','e'] ['q','"','<','&
     [.text ['t','<','&','>'], .text ['u'], .elem ['b','r'] [] []]) = true ∧
     isInert (.elem sP [.plain false ['t','i','t','l','e'] ['q','"','<','&','>'], .cls false ['a',' ','b']]
     [.text ['t','<','&','>'], .text ['u'], .elem ['b','r'] [] []]) = true := by decide
+
+/-- children of `<noscript>` with markup-significant text (`C18_raw_parent_*`): hypotheses hold, and the bytes
+are escaped although the parent hands down `escape = false` -/
+example :
+    allElemsT [.elem sP [] [.text ['1',' ','<',' ','2',' ','&',' ','3']]] = true ∧
+    wfTs [[]] [.elem sP [] [.text ['1',' ','<',' ','2',' ','&',' ','3']]] = true ∧
+    inertKids [.elem sP [] [.text ['1',' ','<',' ','2',' ','&',' ','3']]] = true ∧
+    macroHtml [.elem sDiv [] [.elem tNoscript [] [.elem sP [] [.text ['1','<','2']]]]] =
+      ['<','d','i','v','>','<','n','o','s','c','r','i','p','t','>','<','p','>','1','&','l','t',';','2','<','/','p','>',
+       '<','/','n','o','s','c','r','i','p','t','>','<','/','d','i','v','>'] ∧
+    macroHtml [.elem sDiv [] [.elem tNoscript [] [.elem sP [] [.text ['1','<','2'], .block ['x']]]]] =
+      ['<','d','i','v','>','<','n','o','s','c','r','i','p','t','>','<','p','>','1','&','l','t',';','2','<','!','>','x','<','/','p','>',
+       '<','/','n','o','s','c','r','i','p','t','>','<','/','d','i','v','>'] := by decide
 
 /-- a context with a hole (`C18_static_parts_stable`): static content and a dynamic block in the same hole -/
 example :
